@@ -111,6 +111,27 @@ MidMotif(G, i)   == Frac0(Mat3(G, i, 0, 1, 0), G.ki[i] * G.ko[i] - BilDeg(G, i))
 InMotif(G, i)    == Frac0(Mat3(G, i, 1, 0, 0), G.ki[i] * (G.ki[i] - 1))
 OutMotif(G, i)   == Frac0(Mat3(G, i, 0, 0, 1), G.ko[i] * (G.ko[i] - 1))
 
+\* ---- spectral centralities, as RESIDUAL conditions on a reported vector v (scaled 10^6) -------------
+\* eigenvector centrality (undirected, connected): v >= 0, max v = 1, and A v = lambda v with lambda read off
+\* at a node where v is maximal
+EigenResidualOK(G, v, tol) ==
+  LET n == G.n
+      Av(i) == SumN(LAMBDA j : G.U[i][j] * v[j], 1, n)
+      top == CHOOSE i \in 1..n : \A j \in 1..n : v[i] >= v[j]
+      lam == Av(top)                                   \* lambda * 10^6 (v[top] = 10^6)
+  IN /\ \A i \in 1..n : v[i] >= -tol
+     /\ Close(v[top], 1000000, tol)
+     /\ \A i \in 1..n : Close(Av(i), FxMul(lam, Max2(v[i], 0)), tol + lam \div 100000)
+\* PageRank with damping 85/100: a probability vector with
+\*   p_i = 15/(100 n) + 85/100 (sum_j A_ji p_j / out_j + sum_{out_j = 0} p_j / n)
+PageRankResidualOK(G, p, tol) ==
+  LET n == G.n
+      out(j) == SumN(LAMBDA k : G.A[j][k], 1, n)
+      flow(i) == SumN(LAMBDA j : IF G.A[j][i] = 1 THEN p[j] \div out(j) ELSE 0, 1, n)
+      dangling == SumN(LAMBDA j : IF out(j) = 0 THEN p[j] ELSE 0, 1, n)
+  IN /\ Close(SumN(LAMBDA i : p[i], 1, n), 1000000, tol + n)
+     /\ \A i \in 1..n : Close(p[i], 150000 \div n + (85 * (flow(i) + dangling \div n)) \div 100, tol + n)
+
 \* ---- degree assortativity (Newman 2002), undirected: Pearson correlation of the degrees at the two ends of
 \* a link; with sums over the m links {s,t}:  r = (4m S_dd - S_+^2) / (2m S_sq - S_+^2),
 \* S_dd = sum d_s d_t, S_+ = sum (d_s + d_t), S_sq = sum (d_s^2 + d_t^2); undefined (0/0) on regular graphs
